@@ -1,9 +1,24 @@
-// Command wire: correspondence + oracle stream for the binary codecs (C17).
+// Command wire: correspondence + oracle stream for the wire formats (C17).
+//
+// Every case k draws its randomness from prng.ForCase(seed, k). A case is one of
+//   - a var-uint primitive experiment (pkg/io reader/writer against the model),
+//   - a value of one wire type (repo constructors, boundary-biased counts), encoded by the real
+//     encoder, possibly mutated at field granularity, and decoded by the real decoder,
+//   - a transaction whose bytes are pushed through every arrival path,
+//   - raw random bytes fed to a decoder.
+//
+// The real decoders run in a child process (worker.go); the oracle is in oracle.go / paths.go.
 package main
 
 import (
-	"bytes"
+	"bufio"
+	"flag"
 	"fmt"
+	"os"
+	"path/filepath"
+	"runtime/pprof"
+	"strings"
+	"time"
 
 	"github.com/nspcc-dev/neo-go/pkg/io"
 
@@ -11,84 +26,341 @@ import (
 	"verif/harness/internal/prng"
 )
 
-var boundaries = []uint64{0, 1, 0xfc, 0xfd, 0xfe, 0xff, 0x100, 0xfffe, 0xffff, 0x10000, 0xfffffffe, 0xffffffff, 0x100000000, 1<<63 - 1, 1 << 63, 1<<64 - 1}
+var askTotal time.Duration
+var askByCodec = map[string]time.Duration{}
 
-func genUint(r *prng.R) uint64 {
+type runner struct {
+	o   *hx.Out
+	w   *worker
+	req *bufio.Writer // every request sent to the decoding process (full input of each case, for replays)
+}
+
+// ask runs one request in the worker and transfers failures/counters; k is the case index.
+func (rn *runner) ask(k int, name, req string) *report {
+	if rn.req != nil {
+		fmt.Fprintf(rn.req, "%d %s\n", k, req)
+	}
+	t0 := time.Now()
+	rep, died := rn.w.ask(req)
+	askTotal += time.Since(t0)
+	askByCodec[name] += time.Since(t0)
+	if d := time.Since(t0); d > 300*time.Millisecond && os.Getenv("WIRE_DUMP") != "" {
+		fmt.Fprintf(os.Stderr, "slow case %d %v %s\n", k, d, trunc(req, 120))
+	}
+	if died != "" {
+		rn.o.Fail(name+"-decode-"+died, k, "the decoding process did not survive (%s): request %s", died, trunc(req, 300))
+		rn.w.stop()
+		rn.w = startWorker()
+		rep.obs = died
+	}
+	for _, f := range rep.fails {
+		rn.o.Fail(f[0], k, "%s", f[1])
+	}
+	for _, c := range rep.counts {
+		rn.o.Count(c)
+	}
+	return rep
+}
+
+func (rn *runner) bytesCase(k int, c *codec, b []byte) *report {
+	rep := rn.ask(k, c.name, "B "+c.name+" "+hx.Hex(b))
+	if c.modelled {
+		rn.o.Line("dec "+c.name+" "+hx.Hex(b), rep.obs)
+	}
+	switch {
+	case strings.HasPrefix(rep.obs, "ok"):
+		rn.o.Count("decode:ok:" + c.name)
+	case rep.obs == "err":
+		rn.o.Count("decode:err:" + c.name)
+	default:
+		rn.o.Count("decode:" + rep.obs + ":" + c.name)
+	}
+	return rep
+}
+
+func pickCodec(r *prng.R) *codec {
+	w := make([]int, len(codecs))
+	for i, c := range codecs {
+		w[i] = c.weight
+	}
+	return codecs[r.Weighted(w)]
+}
+
+func (rn *runner) varuintCase(k int, r *prng.R) {
+	o := rn.o
+	v := genUint(r)
+	w := io.NewBufBinWriter()
+	w.WriteVarUint(v)
+	enc := w.Bytes()
+	o.Line(fmt.Sprintf("putvaruint %d", v), hx.Hex(enc))
+	// GetVarSize is defined for collection lengths (int); beyond 32 bits it is not used.
+	if v <= 0xffffffff && io.GetVarSize(v) != len(enc) {
+		o.Fail("varuint-size", k, "GetVarSize(%d)=%d, encoding has %d bytes", v, io.GetVarSize(v), len(enc))
+	}
+	var b []byte
 	switch r.Intn(4) {
 	case 0:
-		return boundaries[r.Intn(len(boundaries))]
-	case 1:
-		return boundaries[r.Intn(len(boundaries))] + uint64(r.Intn(3)) - 1
-	case 2:
-		return r.U64() >> uint(r.Intn(64))
+		b = append(append([]byte{}, enc...), r.Bytes(r.Intn(3))...)
+		o.Count("varuint:valid+tail")
+	case 1: // non-minimal form of a small value
+		forms := [][]byte{{0xfd, byte(v), 0}, {0xfe, byte(v), 0, 0, 0}, {0xff, byte(v), 0, 0, 0, 0, 0, 0, 0}}
+		b = forms[r.Intn(3)]
+		o.Count("varuint:non-minimal")
+	case 2: // truncated
+		b = append([]byte{}, enc...)
+		b = b[:r.Intn(len(b)+1)]
+		o.Count("varuint:truncated")
 	default:
-		return uint64(r.Intn(70000))
+		b = r.Bytes(r.Intn(11))
+		o.Count("varuint:random")
+	}
+	br := io.NewBinReaderFromBuf(b)
+	got := br.ReadVarUint()
+	obs := "err"
+	if br.Err == nil {
+		rest := b[len(b)-br.Len():]
+		obs = fmt.Sprintf("ok %d %s", got, hx.Hex(rest))
+		w2 := io.NewBufBinWriter()
+		w2.WriteVarUint(got)
+		r2 := io.NewBinReaderFromBuf(w2.Bytes())
+		if again := r2.ReadVarUint(); r2.Err != nil || again != got {
+			o.Fail("varuint-reencode", k, "decode(encode(%d)) = %d err=%v", got, again, r2.Err)
+		}
+	}
+	o.Line("readvaruint "+hx.Hex(b), obs)
+	rr := io.NewBinReaderFromBuf(enc)
+	if back := rr.ReadVarUint(); rr.Err != nil || back != v || rr.Len() != 0 {
+		o.Fail("varuint-roundtrip", k, "v=%d enc=%x back=%d", v, enc, back)
+	}
+	// var-bytes with a cap
+	max := []int{0, 1, 16, 1024, 65535}[r.Intn(5)]
+	n := []int{0, 1, max - 1, max, max + 1, r.Intn(300)}[r.Intn(6)]
+	if n < 0 {
+		n = 0
+	}
+	data := r.Bytes(n)
+	w3 := io.NewBufBinWriter()
+	w3.WriteVarBytes(data)
+	vb := append(w3.Bytes(), r.Bytes(r.Intn(3))...)
+	if r.Chance(1, 5) && len(vb) > 0 {
+		vb = vb[:r.Intn(len(vb))]
+	}
+	br3 := io.NewBinReaderFromBuf(vb)
+	gotb := br3.ReadVarBytes(max)
+	obs = "err"
+	if br3.Err == nil {
+		obs = fmt.Sprintf("ok %s %s", hx.Hex(gotb), hx.Hex(vb[len(vb)-br3.Len():]))
+		if io.GetVarSize(gotb) != len(vb)-br3.Len() && len(minimalVarUint(uint64(len(gotb)))) == len(vb)-br3.Len()-len(gotb) {
+			o.Fail("varbytes-size", k, "GetVarSize of %d bytes = %d, consumed %d", len(gotb), io.GetVarSize(gotb), len(vb)-br3.Len())
+		}
+	}
+	o.Line(fmt.Sprintf("readvarbytes %d %s", max, hx.Hex(vb)), obs)
+	o.Seen(fmt.Sprintf("vu/%d/%x", v, b))
+}
+
+func (rn *runner) codecCase(k int, r *prng.R) {
+	o := rn.o
+	c := pickCodec(r)
+	g := newG(r)
+	var b []byte
+	var cuts []int
+	var v any
+	if c.rawGen != nil {
+		b, cuts = c.rawGen(g)
+	} else {
+		v = c.gen(g)
+		var err error
+		b, cuts, err = c.encSeg(v)
+		if err != nil {
+			// out-of-range values some encoders refuse (reported through w.Err): nothing to decode
+			o.Count("gen:unencodable:" + c.name)
+			if !g.invalid {
+				o.Fail(c.name+"-encode-fails", k, "a valid generated value cannot be encoded: %v", err)
+			}
+			return
+		}
+	}
+	if len(cuts) == 0 {
+		cuts = []int{0}
+	}
+	if g.invalid {
+		o.Count("gen:out-of-range:" + c.name)
+	} else {
+		o.Count("gen:valid:" + c.name)
+	}
+	if os.Getenv("WIRE_DUMP") != "" {
+		fmt.Fprintf(os.Stderr, "case %d %s canonical %s\n", k, c.name, hx.Hex(b))
+	}
+	mut := mutNone
+	if c.altEnc != nil && !g.invalid && r.Chance(1, 3) {
+		if ab, err := c.altEnc(v); err == nil {
+			rep := rn.bytesCase(k, c, ab)
+			if want := c.showFn()(v); !strings.HasPrefix(rep.obs, "ok rest=0 ") || !strings.HasSuffix(rep.obs, " v="+want) {
+				key := c.name + "-alt-roundtrip"
+				if strings.HasPrefix(c.name, "message") {
+					key = "message-lz4-roundtrip" // the node's own compressed framing of a valid payload
+				}
+				o.Fail(key, k, "alternative encoding of a valid value is not decoded to it (%s): %d bytes %s", trunc(rep.obs, 100), len(ab), trunc(hx.Hex(ab), 120))
+			}
+			o.Count("mut:alt-encoding")
+			o.Seen(fmt.Sprintf("%s/alt/%x", c.name, hashShort(ab)))
+			return
+		}
+	}
+	if r.Chance(3, 5) {
+		b, mut = mutate(r, b, cuts)
+		if r.Chance(1, 6) {
+			var m2 string
+			b, m2 = mutate(r, b, []int{0})
+			mut += "+" + m2
+		}
+	}
+	o.Count("mut:" + strings.SplitN(mut, "+", 2)[0])
+	rep := rn.bytesCase(k, c, b)
+	if mut == mutNone && !g.invalid && c.rawGen == nil {
+		// round trip of a valid value through the real encoder and decoder
+		want := c.showFn()(v)
+		exp := fmt.Sprintf("ok rest=0 enc=%s ", hx.Hex(b))
+		switch {
+		case !strings.HasPrefix(rep.obs, "ok"):
+			o.Fail(c.name+"-roundtrip", k, "encoding of a valid value is rejected (%s): %s", rep.obs, trunc(hx.Hex(b), 300))
+		case !strings.HasPrefix(rep.obs, exp):
+			o.Fail(c.name+"-roundtrip", k, "decode(encode v) re-encodes differently or leaves bytes: %s", trunc(rep.obs, 300))
+		case !strings.HasSuffix(rep.obs, " v="+want):
+			o.Fail(c.name+"-roundtrip", k, "decode(encode v) != v: want %s got %s", trunc(want, 300), trunc(rep.obs, 300))
+		}
+		if c.size != nil {
+			if sz, err := safeInt(c.size, v); err != nil || (sz >= 0 && sz != len(b)) {
+				o.Fail(c.name+"-size", k, "reported size %d, encoding has %d bytes", sz, len(b))
+			}
+		}
+		o.Count("roundtrip:" + c.name)
+	}
+	o.Seen(fmt.Sprintf("%s/%s/%x", c.name, mut, hashShort(b)))
+	if k%97 == 0 {
+		o.Sample(fmt.Sprintf("%s %s %s -> %s", c.name, mut, trunc(hx.Hex(b), 80), trunc(rep.obs, 120)))
 	}
 }
 
+func hashShort(b []byte) uint64 {
+	h := uint64(1469598103934665603)
+	for _, x := range b {
+		h = (h ^ uint64(x)) * 1099511628211
+	}
+	return h
+}
+
+func (rn *runner) txPathCase(k int, r *prng.R) {
+	o := rn.o
+	g := newG(r)
+	g.allowInvalid = false
+	g.light = !r.Chance(1, 10)
+	g.big = g.big && !g.light
+	t := g.tx()
+	b, cuts, err := encodeSeg(t)
+	if err != nil {
+		o.Fail("tx-encode-fails", k, "%v", err)
+		return
+	}
+	mut := mutNone
+	if r.Chance(4, 5) {
+		// favour the content-preserving mutations: non-minimal counts, bool bytes, key forms
+		for tries := 0; tries < 8; tries++ {
+			var nb []byte
+			nb, mut = mutate(r, b, cuts)
+			if mut == mutNonMin || mut == mutBool || mut == mutKey || tries >= 5 {
+				b = nb
+				break
+			}
+		}
+	}
+	o.Count("txpaths:mut:" + mut)
+	rep := rn.ask(k, "tx", "T "+hx.Hex(b))
+	if txPathsModelled {
+		rn.o.Line("txpaths "+hx.Hex(b), tiePaths(rep.obs))
+	}
+	o.Seen(fmt.Sprintf("txpaths/%s/%x", mut, hashShort(b)))
+}
+
+// tiePaths keeps the two paths the model has (frombytes, stream) of a full paths observation.
+func tiePaths(obs string) string {
+	f := strings.Fields(obs)
+	if len(f) >= 3 && f[0] == "paths" {
+		return f[0] + " " + f[1] + " " + f[2]
+	}
+	return obs
+}
+
+var txPathsModelled = false
+
+func (rn *runner) randomCase(k int, r *prng.R) {
+	c := pickCodec(r)
+	n := r.Intn(48)
+	if r.Chance(1, 10) {
+		n = r.Intn(400)
+	}
+	b := r.Bytes(n)
+	if n > 0 && r.Bool() {
+		b[0] = byte(r.Intn(0x50)) // most type tags are small
+	}
+	rn.o.Count("mut:" + mutRandom)
+	rn.bytesCase(k, c, b)
+	rn.o.Seen(fmt.Sprintf("%s/random/%x", c.name, hashShort(b)))
+}
+
 func main() {
+	isWorker := flag.Bool("worker", false, "internal: run as the decoding child process")
 	f := hx.ParseFlags()
+	if *isWorker {
+		runWorker()
+		return
+	}
+	if pf := os.Getenv("WIRE_PROF"); pf != "" {
+		fh, _ := os.Create(pf)
+		pprof.StartCPUProfile(fh)
+		defer pprof.StopCPUProfile()
+	}
 	o := hx.NewOut(f.Out)
 	defer o.Close()
-	n := f.N(2000, 200000)
-	for k := 0; k < n; k++ {
+	initCodecs()
+	rn := &runner{o: o, w: startWorker()}
+	defer func() { rn.w.stop() }()
+	if rf, err := os.Create(filepath.Join(f.Out, "requests.txt")); err == nil {
+		rn.req = bufio.NewWriterSize(rf, 1<<16)
+		defer func() { rn.req.Flush(); rf.Close() }()
+	}
+
+	corpus := buildCorpus(f.Tier == "thorough")
+	n := f.N(6000, 300000)
+	defer func() {
+		if os.Getenv("WIRE_DUMP") != "" {
+			fmt.Fprintf(os.Stderr, "ask total %v %v\n", askTotal, askByCodec)
+		}
+	}()
+	for k := 0; k < len(corpus)+n; k++ {
 		if !f.Want(k) {
 			continue
 		}
-		r := prng.ForCase(f.Seed, k)
 		o.Case(k)
-		// value -> bytes
-		v := genUint(r)
-		w := io.NewBufBinWriter()
-		w.WriteVarUint(v)
-		enc := w.Bytes()
-		o.Line(fmt.Sprintf("putvaruint %d", v), hx.Hex(enc))
-		// GetVarSize is defined for collection lengths (int); beyond 32 bits it is not used.
-		if v <= 0xffffffff && io.GetVarSize(v) != len(enc) {
-			o.Fail("varuint-size", k, "GetVarSize(%d)=%d, encoding has %d bytes", v, io.GetVarSize(v), len(enc))
+		if k < len(corpus) {
+			corpus[k](rn, k)
+			o.Count("case:corpus")
+			continue
 		}
-		// bytes -> value (valid encoding with a tail, mutated, or random)
-		var b []byte
-		switch r.Intn(4) {
+		r := prng.ForCase(f.Seed, k)
+		switch r.Weighted([]int{8, 62, 14, 16}) {
 		case 0:
-			b = append(append([]byte{}, enc...), r.Bytes(r.Intn(3))...)
-			o.Count("read:valid+tail")
-		case 1: // non-minimal form of a small value
-			forms := [][]byte{{0xfd, byte(v), 0}, {0xfe, byte(v), 0, 0, 0}, {0xff, byte(v), 0, 0, 0, 0, 0, 0, 0}}
-			b = forms[r.Intn(3)]
-			o.Count("read:non-minimal")
-		case 2: // truncated
-			b = append([]byte{}, enc...)
-			b = b[:r.Intn(len(b)+1)]
-			o.Count("read:truncated")
+			rn.varuintCase(k, r)
+			o.Count("case:varuint")
+		case 1:
+			rn.codecCase(k, r)
+			o.Count("case:codec")
+		case 2:
+			rn.txPathCase(k, r)
+			o.Count("case:txpaths")
 		default:
-			b = r.Bytes(r.Intn(11))
-			o.Count("read:random")
+			rn.randomCase(k, r)
+			o.Count("case:random-bytes")
 		}
-		br := io.NewBinReaderFromBuf(b)
-		got := br.ReadVarUint()
-		obs := "err"
-		if br.Err == nil {
-			rest := b[len(b)-br.Len():]
-			obs = fmt.Sprintf("ok %d %s", got, hx.Hex(rest))
-			// oracle: re-encoding decodes to the same value
-			w2 := io.NewBufBinWriter()
-			w2.WriteVarUint(got)
-			r2 := io.NewBinReaderFromBuf(w2.Bytes())
-			if again := r2.ReadVarUint(); r2.Err != nil || again != got {
-				o.Fail("varuint-reencode", k, "decode(encode(%d)) = %d err=%v", got, again, r2.Err)
-			}
-		}
-		o.Line("readvaruint "+hx.Hex(b), obs)
-		// oracle: round trip of the generated value
-		rr := io.NewBinReaderFromBuf(enc)
-		if back := rr.ReadVarUint(); rr.Err != nil || back != v || rr.Len() != 0 {
-			o.Fail("varuint-roundtrip", k, "v=%d enc=%x back=%d", v, enc, back)
-		}
-		o.Seen(fmt.Sprintf("%d/%x", v, b))
-		if k < 3 {
-			o.Sample(fmt.Sprintf("putvaruint %d -> %x ; readvaruint %x -> %s", v, enc, b, obs))
-		}
-		_ = bytes.Equal
 	}
 }
